@@ -71,6 +71,10 @@ impl Table {
         Table { seeds, bounds, toks, d1_prefix, d2_seeds, d2_prefix }
     }
 
+    /// deviation 0: the seeds themselves
+    pub fn count_d0(&self) -> u64 {
+        self.seeds.len() as u64
+    }
     pub fn count_d1(&self) -> u64 {
         *self.d1_prefix.last().unwrap()
     }
@@ -78,7 +82,7 @@ impl Table {
         *self.d2_prefix.last().unwrap()
     }
     pub fn count(&self) -> u64 {
-        self.count_d1() + self.count_d2()
+        self.count_d0() + self.count_d1() + self.count_d2()
     }
 
     pub fn bounds_json(&self) -> Value {
@@ -93,6 +97,16 @@ impl Table {
     /// Returns `None` for an enumeration index that is a textual duplicate by
     /// construction (see the canonical-form rules below).
     pub fn case(&self, idx: u64) -> (Option<Input>, Value) {
+        if idx < self.count_d0() {
+            let sd = &self.seeds[idx as usize];
+            // the harness' own seeds are valid programs by construction; this is checked
+            let own = sd.name.starts_with("m-") || sd.name.starts_with("s-");
+            return (
+                Some(Input::Single(sd.text.clone())),
+                json!({"seed": sd.name, "deviation": [], "expect_compiles": own}),
+            );
+        }
+        let idx = idx - self.count_d0();
         if idx < self.count_d1() {
             let si = self.d1_prefix.partition_point(|p| *p <= idx) - 1;
             let k = idx - self.d1_prefix[si];
@@ -203,9 +217,9 @@ mod tests {
         let t = Table::new(&cfg);
         // every index decodes; spot check the last index of each seed
         for j in 0..t.d2_seeds.len() {
-            let last = t.count_d1() + t.d2_prefix[j + 1] - 1;
+            let last = t.count_d0() + t.count_d1() + t.d2_prefix[j + 1] - 1;
             let _ = t.case(last);
-            let first = t.count_d1() + t.d2_prefix[j];
+            let first = t.count_d0() + t.count_d1() + t.d2_prefix[j];
             let _ = t.case(first);
         }
         let _ = t.case(t.count() - 1);
